@@ -15,7 +15,7 @@ component.
 
 import pickle
 
-from ..core import Violation
+from ..core import Violation, pickle_roundtrip
 from ..ref.graph import reach_closure
 from .. import seams  # noqa: F401  (sets up sys.path and mutes logging)
 
@@ -275,7 +275,7 @@ def execute(R, ctx):
                 ):
                     ctx.probe("cycle_through_one_way_edges")
         elif k == "restart":
-            db2 = pickle.loads(pickle.dumps(db))
+            db2 = pickle_roundtrip(db, "C06")
             if not db2 == db:
                 raise Violation("restart-unequal", "EquivalenceDB != its pickle round trip")
             db = db2
